@@ -31,7 +31,7 @@ FullName(so, nm) == LET l == IF so.snake THEN Snake(nm.l) ELSE nm.l IN
                     IF nm.p = "" THEN l ELSE (IF so.snake THEN Snake(<<nm.p>>) ELSE <<nm.p>>) \o <<":">> \o l
 \* element names: the whole "prefix:local" string is snake-cased; attribute names: only the local part
 ElemNameS(so, nm) == IF nm.p = "" THEN (IF so.snake THEN Snake(nm.l) ELSE nm.l)
-                     ELSE (IF so.snake THEN Snake(<<nm.p>> \o <<":">> \o nm.l) ELSE <<nm.p>> \o <<":">> \o nm.l)
+                     ELSE (IF so.snake THEN Snake(CharsOf(nm.p) \o <<":">> \o nm.l) ELSE <<nm.p>> \o <<":">> \o nm.l)   \* (a hyphen in the PREFIX is folded, too)
 AttrNameS(so, nm) == LET l == IF so.snake THEN Snake(nm.l) ELSE nm.l IN IF nm.p = "" THEN l ELSE <<nm.p>> \o <<":">> \o l
 SScalar(so, cs) == LET s == IF so.escdec THEN XmlEscape(cs) ELSE cs IN IF so.cast THEN CastDefault(s) ELSE VS(s)
 SeqV(i) == [t |-> "i", v |-> Digits(i)]
